@@ -146,6 +146,12 @@ def corpus(ctx):
         for k in range(2):
             cases.append(("[Song]\n{\n  Resolution = 192\n}\n[SyncTrack]\n{\n" + "\n".join(body) + "\n}\n[Events]\n{\n" + ("  1 = E \"x\"\n" * k)
                           + "}\n[ExpertSingle]\n{\n  0 = N 0 0\n}\n", None))
+    # different (tempo, resolution) pairs with the same number of ticks per minute — the same tempo-map arithmetic reached two ways:
+    # whichever of them a process meets first, each chart's times are its own
+    for pairs in (((480, 43008), (192, 107520)), ((96, 240000), (192, 120000), (384, 60000)), ((125, 153600), (192, 100000))):
+        for res_, n_ in pairs:
+            notes_ = "".join(f"  {k} = N {k % 5} 0\n" for k in range(0, 6000, 16))
+            cases.append((f"[Song]\n{{\n  Resolution = {res_}\n}}\n[SyncTrack]\n{{\n  0 = TS 4\n  0 = B {n_}\n}}\n[Events]\n{{\n}}\n[ExpertSingle]\n{{\n{notes_}}}\n", None))
     # > 128 distinct sustain tuples in one chart, and > 128 distinct resolutions over tiny charts
     groups = [gen.NoteGroup(10 * k, {0: k + 1, 1: 2 * k + 3}) for k in range(160)]
     src = gen.ChartSrc(192, {"resolution": 192}, [(0, 120000)], [(0, 4, None)], [], [], [gen.TrackSrc(0, 3, groups, [], [])])
